@@ -827,6 +827,20 @@ def check_C10(tier, seed):
         if keep != x[1]:
             twins[x] = (x[0], keep)
     treal = core.real_hists(list(twins.values())) if twins else {}
+    # the same histories with every finalize argument a numpy integer (not a builtin int): the outcome must not change
+    np_twins = {}
+    for x in xs[:: (3 if tier == "quick" else 1)]:
+        if any(o.startswith("f") for o in x[1]) and all(abs(int(o[1:])) < 2 ** 62 for o in x[1] if o.startswith("f")):
+            np_twins[x] = (x[0], tuple("g" + o[1:] if o.startswith("f") else o for o in x[1]))
+    npreal = core.real_hists(list(np_twins.values())) if np_twins else {}
+    for x, y in np_twins.items():
+        r, r2 = real[x], npreal[y]
+        if r and r[0].startswith(("H ", "X ")):
+            continue
+        if [core.norm_line(l) for l in r] != [core.norm_line(l) for l in r2]:
+            k = next((i for i, (a, b) in enumerate(itertools.zip_longest(r, r2)) if a is None or b is None or core.norm_line(a) != core.norm_line(b)), 0)
+            res.viol(y, f"finalize with a numpy integer behaves differently from the same call with an int, at op {k}: "
+                        f"{r2[k] if k < len(r2) else None!r} instead of {r[k] if k < len(r) else None!r}", {"op": k})
     for x in xs:
         r = real[x]
         if r and r[0].startswith("H "):
